@@ -17,7 +17,8 @@ Pool == [id \in { Tr[i].id : i \in DefLines } |-> Tr[CHOOSE i \in DefLines : Tr[
 RealCAP == MiscMacro.CRYSTALARRAY_MAX
 TVol(k) == IF Pool[k].builtin = 1 THEN Pool[k].vol ELSE CellVolume(Pool[k].cell)
 TGrow(alloc, need) == need                                  \* capacity is an observed variable in traces
-TMutated(c) == [c EXCEPT !.geom = 0 - 1, !.name = "#" \o SubSeq(c.name, 2, Len(c.name)), !.vol = F("-7.0")]
+\* the harness overwrites the first BYTE of the name; names reach the spec with bytes >= 0x80 written as "~XX" (three characters for one byte)
+TMutated(c) == [c EXCEPT !.geom = 0 - 1, !.name = "#" \o SubSeq(c.name, IF Len(c.name) >= 3 /\ SubSeq(c.name, 1, 1) = "~" THEN 4 ELSE 2, Len(c.name)), !.vol = F("-7.0")]
 CA == INSTANCE XrlCrystalArrays WITH VolOf <- TVol, Grow <- TGrow, CAP <- RealCAP, Mutated <- TMutated
 Handles == 1..7
 CopyIds == 0..15
